@@ -613,6 +613,60 @@ def oddname_case(item):
     return res
 
 
+def partial_case(item):
+    """A script writes a piece of a line (no newline yet) and then asks for a dependency that has to be built: the record of the
+    nested build lands behind the piece on the same line of the script's log.  The dependency's lines must still be shown, once,
+    under its name; the piece and the rest of the script's output stay the script's."""
+    _, j, nested_fails, seed = item
+    files = {
+        'y.do': scen.TRACE_HDR + 'echo "S $1 $$ $PPID" >&9\necho "y#0 first" >&2\necho "y#1 second" >&2\n%secho y > "$3"\necho "E $1 $$ 0" >&9\n' % ('exit 3\n' if nested_fails else ''),
+        'z.do': scen.TRACE_HDR + 'echo "S $1 $$ $PPID" >&9\necho "z#0 only" >&2\necho z > "$3"\necho "E $1 $$ 0" >&9\n',
+        'x.do': scen.TRACE_HDR + 'echo "S $1 $$ $PPID" >&9\necho "x#0 whole" >&2\nprintf "x#1 piece " >&2\nredo-ifchange y%s\necho "x#2 rest" >&2\nprintf "x#3 another piece " >&2\nredo-ifchange z\necho "x#4 end" >&2\necho x > "$3"\necho "E $1 $$ 0" >&9\n'
+                % (' || true' if nested_fails else ''),
+    }
+    pj = scen.Project(files, 'c18q')
+    anoms = []
+    obs = dict(builds=1, partial_line_cases=1)
+    exp = {'y': ['y#0 first', 'y#1 second'], 'z': ['z#0 only']}
+    xids = ['x#0', 'x#1', 'x#2', 'x#3', 'x#4']
+    try:
+        r, _ = pj.run(['redo', '-j%d' % j, 'x'], extra={'REDO_PRETTY': '0'}, timeout=60, verif_log=False)
+        text = r.err + r.out
+        if r.status != 'exit' or r.panicked():
+            return dict(verdict='inconclusive', why='build did not end normally (C09 matter)', sample=dict(item=list(item)))
+        r2, _ = pj.run(['redo-log', '-r', '--no-pretty', 'x'], verif_log=False, timeout=60)
+        streams = [('live', text)] + ([('replay', r2.out)] if r2.rc == 0 else [])
+        if r2.rc != 0:
+            anoms.append(dict(key='replay:viewer-error:piece-of-a-line-before-a-nested-build', what='redo-log -r x exits %s: %s' % (r2.rc, (r2.err + r2.out)[-200:])))
+        for what, stream in streams:
+            flat = stream.replace('\r', '')
+            for n, ls in exp.items():
+                for l in ls:
+                    c = flat.count(l)
+                    if c != 1:
+                        anoms.append(dict(key='%s:lines-lost:piece-of-a-line-before-a-nested-build' % what if c == 0 else '%s:line-count:piece-of-a-line-before-a-nested-build' % what,
+                                          what='%r (written once by %s, which was built while a piece of a line of x was pending) appears %d times in the %s output' % (l, n, c, what)))
+            for xi in xids:
+                if flat.count(xi) != 1:
+                    anoms.append(dict(key='%s:line-count:piece-of-a-line-before-a-nested-build' % what, what='%r (x) appears %d times in the %s output' % (xi, flat.count(xi), what)))
+            per, recs, problems = attribute(stream)
+            for n, got in per.items():
+                for g in got:
+                    m = re.match(r'^\s*(\S+)#\d', g)
+                    if m and m.group(1) != os.path.normpath(n) and not anoms:
+                        anoms.append(dict(key='%s:line-under-wrong-target:piece-of-a-line-before-a-nested-build' % what, what='%r is shown under %r' % (g, n)))
+            obs['partial_lines_attributed'] = obs.get('partial_lines_attributed', 0) + sum(len(v) for v in per.values())
+    finally:
+        pj.close()
+    res = dict(verdict='violated' if anoms else 'held', nontrivial=True, shape=common.shash(list(item)),
+               sample=dict(kind='piece-of-a-line-before-a-nested-build', j=j, nested_fails=nested_fails), obs=obs, sets=dict(segments=['piece-before-nested']))
+    if anoms:
+        seen = set()
+        res['violations'] = [a for a in anoms if not (a['key'] in seen or seen.add(a['key']))][:4]
+        res['replay'] = dict(kind='partial', item=list(item))
+    return res
+
+
 def direct_case(item):
     _, seed, n = item
     rnd = random.Random(seed)
@@ -718,6 +772,8 @@ def dispatch(item):
         return spelled_case(item)
     if item[0] == 'oddname':
         return oddname_case(item)
+    if item[0] == 'partial':
+        return partial_case(item)
     return direct_case(item) if item[0] == 'direct' else case(item)
 
 
@@ -728,7 +784,7 @@ RULE = ('generated graphs of 3-25 writer scripts (nested and shared children) at
         'top-level command and the output of `redo-log -r --no-pretty` (from the project top and from a sub-directory) are attributed to '
         'targets by the do/resumed/done records (a record may be glued to an unterminated line); for every script that ran to its end the '
         'attributed lines must equal the written ones exactly (after trailing-whitespace stripping), no id-ed line may appear under another '
-        'target, each executed target has one do and one done record with its exit status. Two-spellings layer: a dependency that writes to stderr is asked for from two directories through different spellings (x, ../x, absolute, detours, a symlinked name of the directory), the second request during or after its build: each of its lines appears once, under its own name, live and in the replay. Odd-names layer: targets whose names end or begin with a blank or a tab: lines stay under the exact name, the viewer does not give up. Direct layer: format->parse round trips of the '
+        'target, each executed target has one do and one done record with its exit status. Two-spellings layer: a dependency that writes to stderr is asked for from two directories through different spellings (x, ../x, absolute, detours, a symlinked name of the directory), the second request during or after its build: each of its lines appears once, under its own name, live and in the replay. Piece-before-nested layer: a script writes a piece of a line and then asks for a dependency that is built (its record lands behind the piece on the same line): the lines of the dependency appear once under its name, the pieces of the script once under the script. Odd-names layer: targets whose names end or begin with a blank or a tab: lines stay under the exact name, the viewer does not give up. Direct layer: format->parse round trips of the '
         'record type for the fixed kind vocabulary x pids x timestamps x texts (incl. "@@ ", "@@REDO:", ":", unicode), plus the same under '
         'Miri (thorough).')
 ASSUME = ['script output that contains a syntactically valid record is in-band forgery and is not generated', 'pretty mode is presentation and is not compared',
@@ -757,6 +813,10 @@ def main(tier):
     for j in (1, 3):
         for rep in range(1 if quick else 5):
             items.append(('oddname', j, rep))
+    for j in (1, 3):
+        for nf in (False, True):
+            for rep in range(1 if quick else 5):
+                items.append(('partial', j, nf, rep))
     for i in range(40 if quick else 800):
         items.append(('hist', common.seed() * 100003 + (0 if quick else 50000) + i))
     for i in range(4 if quick else 60):
